@@ -809,4 +809,44 @@ theorem advance_rt (T : Tokenizer) (hwf : T.WF) (hpos : T.pos = 0) (k : Nat) (hk
     refine ⟨u0, [], h0, hk', ?_⟩
     simp [advanceRtOk]
 
+
+/-! ### totality of the constructor -/
+
+/-- the constructor raises exactly when the mode is solid and the delimiter empty; otherwise it
+returns (its loops end within their fuel, every `substr` is in range) -/
+theorem mkTokenizer_error_iff (s d : Str) (solid ae : Bool) (hs : StrOk s) :
+    mkTokenizer s d solid ae = .error .bpp ↔ (solid = true ∧ d = []) := by
+  have hsz := hs.lt_SZ
+  constructor
+  · intro h
+    unfold mkTokenizer mkTokenizerG at h
+    cases solid with
+    | false =>
+      exfalso
+      simp only [Bool.not_false, if_true] at h
+      cases hf : findFirstNotOf d s 0 with
+      | none => rw [hf] at h; cases h
+      | some index =>
+        rw [hf] at h
+        have hb := findFirstNotOf_bounds hf
+        obtain ⟨ts, ss, e, _⟩ := nsLoop_rt s d ae hs (loopFuel s) index (by omega) (by unfold loopFuel; omega)
+        simp [e, pure_eq_ok] at h
+    | true =>
+      refine ⟨rfl, ?_⟩
+      cases d with
+      | nil => rfl
+      | cons c r =>
+        exfalso
+        obtain ⟨ts, ss, e, _⟩ := solidLoop_rt s (c :: r) ae (by simp) hs (loopFuel s) 0 (Nat.zero_le _)
+          (by unfold loopFuel; omega)
+        simp [e, pure_eq_ok] at h
+  · rintro ⟨rfl, rfl⟩
+    rfl
+
+theorem mkTokenizer_total (s d : Str) (solid ae : Bool) (hs : StrOk s) (h : ¬ (solid = true ∧ d = [])) :
+    ∃ T, mkTokenizer s d solid ae = .ok T := by
+  rcases mkTokenizer_spec s d solid ae hs with e | ⟨T, e, _⟩
+  · exact absurd ((mkTokenizer_error_iff s d solid ae hs).mp e) h
+  · exact ⟨T, e⟩
+
 end Bpp.Text.RT
